@@ -1,3 +1,120 @@
-import SoxrModel.Cr.Model
+import SoxrModel.Cr.Stream
+/-!
+# C15 `soxr_delay` reports exactly the output still owed for the input accepted
+
+`_soxr_delay = samples_in / io_ratio − samples_out`.  With `io_ratio = p / q` (the exact rational `irate/orate`;
+`p, q > 0`) the delay is the rational `(samples_in·q − samples_out·p) / p`; everything below is stated on that
+numerator, in integers, so that no rounding of the model can hide anything.  `roundDiv a p = ⌊a/p + ½⌋`.
+The C code evaluates the same expression in binary64; the check compares the two bit for bit through the driver and
+evaluates the property's relation in exact rationals (ties within 1e-6 counted separately).
+-/
 namespace Soxr.Properties.C15
+open Soxr Soxr.Cr
+
+/-- `⌊a/p + 1/2⌋` (round half up) -/
+def roundDiv (a : Int) (p : Nat) : Int := (2 * a + p) / (2 * p)
+
+/-- numerator of the reported delay over the denominator `p` -/
+def delayNum (e : Eng) (p q : Nat) : Int := (e.sin : Int) * q - e.sout * p
+
+theorem roundDiv_add_mul (a s : Int) (p : Nat) (hp : 0 < p) : roundDiv (a + s * p) p = roundDiv a p + s := by
+  unfold roundDiv
+  have h2p : (2 * (p : Int)) ≠ 0 := by omega
+  have e : 2 * (a + s * p) + p = (2 * a + p) + s * (2 * p) := by
+    rw [Int.mul_add]; have : 2 * (s * (p : Int)) = s * (2 * p) := by rw [Int.mul_left_comm]; 
+    omega
+  rw [e, Int.add_mul_ediv_right _ _ h2p]
+
+/-- **Delay relation while streaming.**  At every point of every streaming history (any call sizes), with `rem`
+    frames still to be supplied: `delivered + round(delay + rem·orate/irate) = round((accepted + rem)·orate/irate)`,
+    the total the stream will finally deliver. -/
+theorem delay_relation_streaming (e e' : Eng) (ops : List StreamOp) (F D rem p q : Nat) (hp : 0 < p)
+    (hsin : e.sin = 0) (hsout : e.sout = 0) (hs : Streaming e) (h : Streams e ops F D e') :
+    (D : Int) + roundDiv (delayNum e' p q + (rem : Int) * q) p = roundDiv (((F + rem : Nat) : Int) * q) p := by
+  obtain ⟨_, h2, h3⟩ := streams_counters ops e F D e' hs h
+  unfold delayNum
+  rw [h2, h3, hsin, hsout]
+  have e1 : ((0 + F : Nat) : Int) * q - (0 + (D : Int)) * p + (rem : Int) * q = ((F + rem : Nat) : Int) * q + (-(D : Int)) * p := by
+    push_cast; simp only [Int.zero_add]; rw [Int.add_mul, Int.neg_mul]; omega
+  rw [e1, roundDiv_add_mul _ _ _ hp]; omega
+
+/-- **After end-of-input the delay is the number of frames still to come** (an integer, never negative):
+    `delivered so far + delay = owed N`, for every history before and every request sequence after the flush. -/
+theorem delay_after_flush (num : Num) (a : Api) (e' : Eng) (ops : List StreamOp) (N D : Nat) (reqs : List Nat)
+    (hsin : a.eng.sin = 0) (hsout : a.eng.sout = 0) (hstr : Streaming a.eng)
+    (hs : Streams a.eng ops N D e') (hearly : D ≤ num.owed N) :
+    let a1 : Api := { a with eng := e'.flush num.owed, flushing := true }
+    ∀ ods a2, Calls num a1 reqs ods a2 →
+      a2.eng.sin = 0 ∧ 0 ≤ -a2.eng.sout ∧ (D : Int) + ods.sum + (-a2.eng.sout) = num.owed N := by
+  intro a1 ods a2 hc
+  obtain ⟨hst', h2, h3⟩ := streams_counters ops a.eng N D e' hstr hs
+  have hfle : (e'.flush num.owed) = { e' with sout := e'.sout - num.owed e'.sin, sin := 0, fl := true } := by
+    unfold Eng.flush; simp [hst'.fl]
+  have hso : (e'.flush num.owed).sout = (D : Int) - num.owed N := by
+    rw [hfle]; show e'.sout - (num.owed e'.sin : Int) = _; rw [h2, h3, hsin, hsout]; simp
+  have hd : Draining a1.eng := by
+    show Draining (e'.flush num.owed)
+    refine ⟨by rw [hfle], by rw [hso]; omega, by rw [hfle]; exact hst'.wf, by rw [hfle]; exact hst'.ne⟩
+  -- generalise over the call sequence
+  have key : ∀ (reqs : List Nat) (b : Api) (ods : List Nat) (b2 : Api), b.flushing = true → Draining b.eng → b.eng.sin = 0 →
+      Calls num b reqs ods b2 → b2.eng.sin = 0 ∧ b2.eng.sout ≤ 0 ∧ b2.eng.sout = b.eng.sout + ods.sum := by
+    intro reqs
+    induction reqs with
+    | nil => intro b ods b2 _ hdb hsb hcb; cases hcb; exact ⟨hsb, hdb.sout, by simp⟩
+    | cons n r ih =>
+      intro b ods b2 hfb hdb hsb hcb
+      cases hcb with
+      | cons _ b1 _ _ od _ ods' fuel hcall hrest =>
+        obtain ⟨f2, b1', hcall', hfl1, hd1, ho1, _⟩ := outputNoCb_draining num b n hfb hdb
+        have := outputNoCb_det num b n fuel f2 _ _ hcall hcall'
+        injection this with hb hod
+        subst hb
+        -- counters of b1
+        have hsout1 : b1.eng.sout = b.eng.sout + od := by
+          have h1 := hd1.sout; have h0 := hdb.sout
+          unfold Eng.owedLeft at ho1 hod
+          rw [hod]; omega
+        have hsin1 : b1.eng.sin = 0 := by
+          -- `_soxr_process` and `_soxr_output` leave samples_in alone
+          unfold Api.outputNoCb at hcall
+          simp only [hfb, if_true, flush_idem num.owed b.eng hdb.fl] at hcall
+          cases hp : b.eng.process fuel n with
+          | none => simp [hp] at hcall
+          | some e1 =>
+            simp only [hp] at hcall
+            injection hcall with hcall
+            injection hcall with hb1 _
+            obtain ⟨f3, e3, hp3, _, hsame, _⟩ := process_flush_total b.eng n hdb.fl hdb.ne hdb.wf
+            have := process_det b.eng n fuel f3 e1 e3 hp hp3
+            subst this
+            rw [← hb1]; show (e1.output n).1.sin = 0
+            unfold Eng.output; show e1.sin = 0; rw [hsame.sin]; exact hsb
+        obtain ⟨g1, g2, g3⟩ := ih b1 ods' b2 hfl1 hd1 hsin1 hrest
+        refine ⟨g1, g2, ?_⟩
+        rw [g3, hsout1]; simp only [List.sum_cons]; push_cast; omega
+  obtain ⟨k1, k2, k3⟩ := key reqs a1 ods a2 rfl hd (by show (e'.flush num.owed).sin = 0; rw [hfle]) hc
+  refine ⟨k1, by omega, ?_⟩
+  rw [k3]
+  show (D : Int) + ods.sum + -((e'.flush num.owed).sout + ods.sum) = num.owed N
+  rw [hso]; omega
+
+/-- **Zero before any input** (and after `soxr_clear`, which the model — like the code — implements as a fresh engine). -/
+theorem delay_zero_fresh (e : Eng) (p q : Nat) (hsin : e.sin = 0) (hsout : e.sout = 0) : delayNum e p q = 0 := by
+  unfold delayNum; rw [hsin, hsout]; simp
+
+/-- **Zero once drained**: when nothing is owed any more the delay is 0. -/
+theorem delay_zero_drained (e : Eng) (p q : Nat) (hsin : e.sin = 0) (hd : Draining e) (h0 : e.owedLeft = 0) :
+    delayNum e p q = 0 := by
+  unfold delayNum Eng.owedLeft at *
+  have := hd.sout
+  have : e.sout = 0 := by omega
+  rw [hsin, this]; simp
+
+/-- **Never below −1 while streaming**, given the never-early bound `D ≤ ⌈N·q/p⌉` (C03): `delay·p > −p`. -/
+theorem delay_gt_neg_one (e : Eng) (p q N D : Nat) (hsin : e.sin = N) (hsout : e.sout = D)
+    (hearly : (D : Int) * p < (N : Int) * q + p) : -(p : Int) < delayNum e p q := by
+  unfold delayNum; rw [hsin, hsout]; omega
+
+example : roundDiv 7 2 = 4 ∧ roundDiv 5 2 = 3 ∧ roundDiv (-1) 2 = 0 := by decide
+
 end Soxr.Properties.C15
